@@ -9,7 +9,7 @@ import json,sys
 p,note=sys.argv[1],sys.argv[2]
 try: m=json.load(open('/tmp/mut/%s-out/meta.json'%p))
 except Exception: m={"property":p}
-m["property"]=p
+m["property"]=p.split("-")[-1]
 m["confirmed_by_me"]=open('/tmp/mut/%s.verify.txt'%p).read().strip().split("\n") if __import__('os').path.exists('/tmp/mut/%s.verify.txt'%p) else []
 m["detection"]=note
 json.dump(m, open('/verif/seeded/%s/meta.json'%p,'w'), indent=1)
